@@ -13,7 +13,7 @@ from types import SimpleNamespace
 from .. import cpuwatch, e2e, realcall
 from ..common import Hang, hx, unhx, watchdog
 from ..runner import Check
-from . import c11_dups, c11_repoint
+from . import c11_collapse, c11_dups, c11_repoint
 
 # ---------------------------------------------------------------------------------------------
 # graphs
@@ -1640,6 +1640,7 @@ def run(ck: Check) -> None:
         "Python's own RecursionError is modelled as striking at the nested call of sort_data_models or in the callee before its first write (sortGoS); observed on the real function with stand-in objects whose attributes are plain values; with real DataModel objects only the result oracle is applied",
         "the generator's pipeline apart from the ordering stage needs some stack of its own: end-to-end runs on a lowered recursion limit that also fail for the referent-first order of the same models are counted as unmodelled, not as failures",
         "__reuse_model is modelled for object models (Enum and type-alias branches: end-to-end oracle only); equality of renderings is represented by a key computed from the written definition (mark, members, bases)",
+        "Model.Collapse: one module (references to root models of other modules and users outside the list only as `ext`), --field-constraints off, root models have one field; a copy that shares a registered nested data type pointing at a root model is outside the model (`unmodelled`, counted)",
         "the end-to-end oracle treats a base list that Python itself rejects (MRO conflict, duplicate base) as outside C11: no order of classes could repair it",
     ]
     guarded(ck, campaign_sort, 500 if quick else 5000, 3 if quick else 4)
@@ -1653,10 +1654,12 @@ def run(ck: Check) -> None:
     guarded(ck, campaign_reuse, 200 if quick else 2000)
     guarded(ck, c11_repoint.campaign_replace_reference, 400 if quick else 4000)
     guarded(ck, c11_repoint.campaign_passes, 150 if quick else 1500)
+    guarded(ck, c11_collapse.campaign_collapse, 120 if quick else 1500)
     guarded(ck, campaign_e2e_post, 120 if quick else 900)
     guarded(ck, campaign_e2e_deep, 10 if quick else 60)
     guarded(ck, campaign_e2e_modular, 80 if quick else 400)
     ck.search_hooks.append(search_update_action)
+    ck.search_hooks.append(c11_collapse.search_collapse)
     ck.search_hooks.append(c11_dups.search_dups)
     ck.search_hooks.append(search_e2e)
     known_findings(ck)
